@@ -781,8 +781,8 @@ theorem readySeq_childCmd {s : Ca} (hu : UsedInv s) {c : Cmd} {evs : List Ev}
       | .childAdd .. | .childUpdateResources .. | .childMapping .. | .childCertify .. | .childRemove _
       | .childSuspend _ | .childUnsuspend .. | .addParent _ | .config _ => True
       | .childRevokeKey ch childRcn _ =>
-        ∀ cd, get s.children ch = some cd → (get s.classes childRcn).isSome = true →
-          ∃ rc, get s.classes (cd.nameInParent childRcn) = some rc ∧ rc.keys.current.isSome = true
+        ∀ cd rc, get s.children ch = some cd → get s.classes (cd.nameInParent childRcn) = some rc →
+          rc.keys.current.isSome = true
       | _ => False)
     (h : s.process c = .ok evs) : ReadySeq s evs := by
   cases c with
@@ -832,27 +832,27 @@ theorem readySeq_childCmd {s : Ca} (hu : UsedInv s) {c : Cmd} {evs : List Ev}
       exact readySeq_of_all (certifyEvents_ready h (by simp [hg]))
   | childRevokeKey ch childRcn ki =>
     simp only [Ca.process] at h
-    split at h
-    · simp only [Except.ok.injEq] at h; subst h; trivial
-    · rename_i hcls
-      cases hg : get s.children ch with
-      | none => simp [hg] at h
-      | some cd =>
-        simp only [hg] at h
+    cases hg : get s.children ch with
+    | none => simp [hg] at h
+    | some cd =>
+      simp only [hg] at h
+      split at h
+      · simp only [Except.ok.injEq] at h; subst h; trivial
+      · rename_i hcls
         split at h
         · cases h
         · simp only [Except.ok.injEq] at h; subst h
-          obtain ⟨rc, hrc, hcur⟩ := hc cd hg (by
-            cases hq : get s.classes childRcn with
-            | none => simp [hq] at hcls
-            | some _ => rfl)
-          refine readySeq_of_all ?_
-          intro e he
-          simp only [List.mem_cons, List.not_mem_nil, or_false] at he
-          rcases he with rfl | rfl
-          · refine ⟨rfl, trivial, ?_, trivial⟩
-            simp [Ca.apply, Ca.withClass, hrc, withChild_isSome', hg]
-          · exact ⟨rfl, ready_childCerts _ hrc hcur⟩
+          cases hrc : get s.classes (cd.nameInParent childRcn) with
+          | none => simp [hrc] at hcls
+          | some rc =>
+            have hcur := hc cd rc hg hrc
+            refine readySeq_of_all ?_
+            intro e he
+            simp only [List.mem_cons, List.not_mem_nil, or_false] at he
+            rcases he with rfl | rfl
+            · refine ⟨rfl, trivial, ?_, trivial⟩
+              simp [Ca.apply, Ca.withClass, hrc, withChild_isSome', hg]
+            · exact ⟨rfl, ready_childCerts _ hrc hcur⟩
   | childRemove ch =>
     simp only [Ca.process] at h
     cases hg : get s.children ch with
@@ -1374,13 +1374,14 @@ theorem readySeq_updateEntitlements {s : Ca} (hnd : (keys s.classes).Nodup) {p :
 
 /-! ## All commands -/
 
-/-- The condition under which a revocation request emits applicable events: the class the
-child's name is translated to exists and has a current key (not so on this tree when a
-class-name mapping points to a missing class, F-C04-1). -/
+/-- The condition under which the pre-save listener accepts the events of a revocation request:
+the class the child's name is translated to, if it exists, has a current key (a class that is
+still `pending` has no published object sets, and the listener refuses the certificate update
+for it with an error).  `apply` needs no condition since fix 43d7eca0. -/
 def RevokeOk (s : Ca) : Cmd → Prop
   | .childRevokeKey ch childRcn _ =>
-    ∀ cd, get s.children ch = some cd → (get s.classes childRcn).isSome = true →
-      ∃ rc, get s.classes (cd.nameInParent childRcn) = some rc ∧ rc.keys.current.isSome = true
+    ∀ cd rc, get s.children ch = some cd → get s.classes (cd.nameInParent childRcn) = some rc →
+      rc.keys.current.isSome = true
   | _ => True
 
 theorem process_readySeq {s : Sys} (hinv : Inv s) {c : Cmd} {evs : List Ev} (hok : RevokeOk s.ca c)
@@ -1446,8 +1447,8 @@ theorem exec_stored_iff {s s' : Sys} {c : Cmd} {evs : List Ev} :
           cases h1; cases h2
           exact ⟨rfl, rfl⟩
 
-/-- A revocation request outside `RevokeOk` is never stored: either `apply` panics (class
-missing) or the listener refuses (class still pending). -/
+/-- A revocation request outside `RevokeOk` is never stored: the listener refuses (class still
+pending). -/
 theorem bad_revoke_not_stored {s : Sys} (hinv : Inv s) {c : Cmd} (hbad : ¬ RevokeOk s.ca c)
     {evs : List Ev} {s' : Sys} : s.exec c ≠ .stored evs s' := by
   intro hst
@@ -1457,33 +1458,45 @@ theorem bad_revoke_not_stored {s : Sys} (hinv : Inv s) {c : Cmd} (hbad : ¬ Revo
     simp only [RevokeOk] at hbad
     simp only [Ca.process] at hp
     apply hbad
-    intro cd hcd hcls
-    simp only [hcls, Bool.not_true, Bool.false_eq_true, if_false, hcd] at hp
+    intro cd rc hcd hg
+    simp only [hcd, hg, Option.isSome_some, Bool.not_true, Bool.false_eq_true, if_false] at hp
     split at hp
     · cases hp
     · simp only [Except.ok.injEq] at hp; subst hp
       obtain ⟨ca', o'⟩ := s'
       obtain ⟨ha, ho⟩ := runEvs_some_iff.mp hr
-      -- the aggregate applied `ChildKeyRevoked`: the class exists
-      simp only [Ca.applyAll, Ca.apply] at ha
-      cases hw : s.ca.withClass (cd.nameInParent childRcn)
-          (fun rc => some { rc with certs := rc.certs.removeRevoked ki }) with
-      | none => simp [hw] at ha
-      | some s1 =>
-        obtain ⟨rc, rc', hg, _, _⟩ := Ca.withClass_some hw
-        refine ⟨rc, hg, ?_⟩
-        -- the listener accepted `ChildCertificatesUpdated`: there is an object class, so the
-        -- class is not pending
-        simp only [Objs.stepAll, Objs.step] at ho
-        cases hgo : get s.objs (cd.nameInParent childRcn) with
-        | none => simp [Objs.withClass, hgo] at ho
-        | some ok =>
-          have hc := hinv.core.cls (cd.nameInParent childRcn)
-          rw [hg, hgo] at hc
-          obtain ⟨hm, _, _⟩ := hc
-          cases hk : rc.keys with
-          | pending p => rw [hk] at hm; have := ksMirror_pending.mp hm; cases this
-          | _ => simp [KeyState.current]
+      -- the listener accepted `ChildCertificatesUpdated`: there is an object class, so the
+      -- class is not pending
+      simp only [Objs.stepAll, Objs.step] at ho
+      cases hgo : get s.objs (cd.nameInParent childRcn) with
+      | none => simp [Objs.withClass, hgo] at ho
+      | some ok =>
+        have hc := hinv.core.cls (cd.nameInParent childRcn)
+        rw [hg, hgo] at hc
+        obtain ⟨hm, _, _⟩ := hc
+        cases hk : rc.keys with
+        | pending p => rw [hk] at hm; have := ksMirror_pending.mp hm; cases this
+        | _ => simp [KeyState.current]
   | _ => exact hbad trivial
+
+/-- The events of a revocation request are applied by `apply` whatever the state of the class
+(the listener is the one that may refuse). -/
+theorem revoke_applies {s : Ca} {ch : Handle} {childRcn : Rcn} {ki : KeyId} {evs : List Ev}
+    (h : s.process (.childRevokeKey ch childRcn ki) = .ok evs) : (s.applyAll evs).isSome = true := by
+  simp only [Ca.process] at h
+  cases hg : get s.children ch with
+  | none => simp [hg] at h
+  | some cd =>
+    simp only [hg] at h
+    split at h
+    · simp only [Except.ok.injEq] at h; subst h; rfl
+    · rename_i hcls
+      split at h
+      · cases h
+      · simp only [Except.ok.injEq] at h; subst h
+        cases hrc : get s.classes (cd.nameInParent childRcn) with
+        | none => simp [hrc] at hcls
+        | some rc =>
+          simp [Ca.applyAll, Ca.apply, Ca.withClass, Ca.withChild, hrc, hg, get_set]
 
 end KM.CaK
